@@ -172,6 +172,80 @@ func C13(c *core.Ctx) {
 	c.RuleText = "instances: every '+tlv-model' struct discovered (floor 79), its parser and encoder in zz_generated.go. Non-trivial = a model with ≥1 tagged field (table rows to compare) or a parser with a default branch."
 	p := c.P
 	models, genFiles := discoverModels(p)
+	// ---- R13.14 skipping an unknown element depends only on its length: every reader's Skip
+	// refuses (returns an error) only behind a test of the number of bytes it was asked to
+	// skip. A refusal decided by the position alone ("already at the end") rejects a
+	// zero-length unknown element that is the last of its block — an unknown non-critical
+	// element must be skipped at ANY position.
+	// ---- R13.15 (shared with C03 R3.2) the number primitives the generated code calls
+	{
+		nSkip := 0
+		if pr := p.Named("std/encoding", "ParseReader"); pr != nil {
+			for _, t := range p.Implementations(pr) {
+				fn := p.MethodOf(t, "Skip")
+				if fn == nil || fn.Blocks == nil || len(fn.Params) < 2 || strings.HasSuffix(p.File(fn.Pos()), "_test.go") {
+					continue
+				}
+				nSkip++
+				c.Funcs[core.FuncName(fn)] = true
+				n := fn.Params[1]
+				derives := func(v ssa.Value) bool {
+					found := false
+					var walk func(v ssa.Value, d int)
+					seen := map[ssa.Value]bool{}
+					walk = func(v ssa.Value, d int) {
+						if d > 6 || found || v == nil || seen[v] {
+							return
+						}
+						seen[v] = true
+						if v == ssa.Value(n) {
+							found = true
+							return
+						}
+						switch y := v.(type) {
+						case *ssa.BinOp:
+							walk(y.X, d+1)
+							walk(y.Y, d+1)
+						case *ssa.UnOp:
+							walk(y.X, d+1)
+						case *ssa.Convert:
+							walk(y.X, d+1)
+						case *ssa.Phi:
+							for _, e := range y.Edges {
+								walk(e, d+1)
+							}
+						}
+					}
+					walk(v, 0)
+					return found
+				}
+				bad := ""
+				core.Instrs(fn, func(in ssa.Instruction) {
+					r, ok := in.(*ssa.Return)
+					if !ok || len(r.Results) != 1 || core.IsNilConst(r.Results[0]) {
+						return
+					}
+					guarded := false
+					for d := r.Block().Idom(); d != nil; d = d.Idom() {
+						if iff, isIf := d.Instrs[len(d.Instrs)-1].(*ssa.If); isIf && derives(iff.Cond) {
+							guarded = true
+						}
+					}
+					if iff, isIf := r.Block().Instrs[len(r.Block().Instrs)-1].(*ssa.If); isIf && derives(iff.Cond) {
+						guarded = true
+					}
+					if !guarded {
+						bad = c.Pos(r)
+					}
+				})
+				c.Decide(bad == "", "R13.14", "skip-refuses-only-by-length:"+core.FuncName(fn), p.Pos(fn.Pos()), "every error return of Skip lies behind a test of the number of bytes to skip", core.FuncName(fn)+" can refuse to skip without having looked at the number of bytes (error return at "+bad+"): an unknown non-critical element with an empty value at the end of a block is rejected by every generated parser although it must be skipped at any position")
+			}
+		}
+		c.Floor("R13.14", "Skip implementations of enc.ParseReader", nSkip, 2)
+	}
+	c.Import(C03, "R13.15", "a number primitive that the generated encoders and parsers call deviates from the TLV number code: what one side writes the other side does not read back", 4, func(k string) bool {
+		return strings.HasPrefix(k, "R3.2:table:")
+	})
 	// ---- R13.12 (shared with C03 R3.1) generated encoders size a Name field by summing
 	// Component.EncodingLength and write it with Component.EncodeInto (hand-written in
 	// std/encoding): both use the TLV length code for the component's length, or the encoder
